@@ -6,6 +6,7 @@ same tokens (concatenation, nesting, sibling order, positions; rejection ⇔ an 
 import Goyang.Model.Parse
 import Goyang.Spec.Parse
 import Goyang.Lemmas.QStr
+import Goyang.Lemmas.Utf8
 
 namespace Goyang.Lemmas.ListSrc
 open Goyang.Model.Lex (Token Code ErrLine ErrClass Fault)
@@ -13,6 +14,7 @@ open Goyang.Model.Parse
 open Goyang.Model.Utf8 (encodeChars)
 open Goyang.Spec.Parse
 open Goyang.Lemmas.QStr
+open Goyang.Lemmas.Utf8 (encodeChars_append encodeChars_eq_single)
 
 /-! ## the statements of the reference reader as statements of the model -/
 
@@ -118,9 +120,8 @@ theorem pullTok_nil (b : Bool) (p : P) (h : p.src.toks = []) :
   rw [pullTok_eq]
   unfold lpull
   rw [h]
-  simp only
   cases ht : p.src.tail with
-  | none => simp [h]
+  | none => simp [h, ht]
   | some e => simp [h]
 
 theorem pullTok_cons (b : Bool) (p : P) (t : PTok) (ts : List PTok) (h : p.src.toks = t :: ts) :
@@ -135,11 +136,9 @@ theorem pullTok_cons (b : Bool) (p : P) (t : PTok) (ts : List PTok) (h : p.src.t
   rw [pullTok_eq]
   unfold lpull
   rw [h]
-  simp only
-  refine ⟨rfl, rfl, rfl, rfl, rfl, rfl, rfl, rfl, ?_, ?_, ?_⟩
-  · intro hb; simp [hb]
-  · intro hb; simp [hb]
-  · intro he; split <;> simp [he]
+  by_cases hb : badEsc b t = true
+  · simp [hb]
+  · simp [hb]
 
 theorem push_fields (ts : List Token) (p : P) :
     (push ts p).src = p.src ∧ (push ts p).depth = p.depth ∧ (push ts p).fault = p.fault ∧
@@ -199,7 +198,7 @@ theorem next_bad (b : Bool) (f : Nat) (p : P) (h : Bad p) : Bad (next LS b f p).
 theorem fetchArg_bad (kw : Token) (f : Nat) (p : P) (h : Bad p) : Bad (fetchArg LS kw f p).2.2 := by
   unfold fetchArg
   simp only
-  have h1 := next_bad (kw.text = patternKw) f p h
+  have h1 := next_bad (kw.text = Model.Parse.patternKw) f p h
   split
   · split
     · exact next_bad false f _ h1
@@ -224,18 +223,19 @@ theorem stmt_block_bad : ∀ (f : Nat),
       have h1 := next_bad false f p h
       split
       · exact h1
-      · split
+      · rename_i t _
+        split
         · exact h1
         · split
           · exact addErr_bad _ _
-          · have h2 := fetchArg_bad ‹Token› f _ h1
+          · have h2 := fetchArg_bad t f _ h1
             split
             · exact addErr_bad _ _
             · split
               · exact h2
               · split
-                · have h3 := ihb [] (setDepth ((fetchArg LS ‹Token› f (next LS false f p).2).2.2.depth + 1)
-                      (fetchArg LS ‹Token› f (next LS false f p).2).2.2) h2
+                · have h3 := ihb [] _ (show Bad (setDepth ((fetchArg LS t f (next LS false f p).2).2.2.depth + 1)
+                      (fetchArg LS t f (next LS false f p).2).2.2) from h2)
                   split
                   · exact h3
                   · exact h3
@@ -262,5 +262,310 @@ theorem topLoop_bad : ∀ (f : Nat) (acc : List Statement) (p : P), Bad p → Ba
     · exact h1
     · exact ih _ _ (addErr_bad _ _)
     · exact ih _ _ h1
+
+/-! ## the tokens as the reference reader sees them -/
+
+/-- admissibility as far as (c) needs it: exclusion (3) for every double-quoted token -/
+def okTok (t : PTok) : Prop :=
+  match t.tok with
+  | .dq raw => noEscBlankEnd raw
+  | _ => True
+
+theorem conv_code (text : List Char) (file : List UInt8) (t : PTok) : (conv text file t).code = tokCode t.tok := rfl
+
+theorem tokCode_string (t : Tok) : tokCode t = Code.string ↔ t.isQuoted = true := by
+  cases t <;> simp [tokCode, Tok.isQuoted]
+
+theorem tokCode_unquoted (t : Tok) : tokCode t = Code.unquoted ↔ ∃ s, t = .unq s := by
+  cases t <;> simp [tokCode]
+
+/-- a quoted piece: its value is the text of the token the lexer hands out, unless an undefined
+backslash pair is read outside pattern mode -/
+theorem piece_spec (text : List Char) (file : List UInt8) (b : Bool) (t : PTok) (hq : t.tok.isQuoted = true)
+    (hok : okTok t) :
+    (badEsc b t = true → piece text b t = none) ∧
+    (badEsc b t = false → ∃ v, piece text b t = some v ∧ encodeChars v = (conv text file t).text) := by
+  obtain ⟨tok, off⟩ := t
+  cases tok with
+  | sq s => simp [badEsc, piece, conv, tokText]
+  | dq raw =>
+    have hok' : noEscBlankEnd raw := hok
+    cases b with
+    | true =>
+      simp only [badEsc, Bool.not_true, Bool.false_and, Bool.false_eq_true, false_implies, true_and,
+        forall_const, piece, conv, tokText]
+      exact ⟨_, dequote_true _ raw hok', rfl⟩
+    | false =>
+      simp only [badEsc, Bool.not_false, Bool.true_and, Bool.not_eq_eq_eq_not, Bool.not_true, piece, conv, tokText,
+        Bool.not_eq_false]
+      rw [dequote_false _ raw hok']
+      constructor
+      · intro h; simp [h]
+      · intro h; simp [h]
+  | semi => simp [Tok.isQuoted] at hq
+  | lbrace => simp [Tok.isQuoted] at hq
+  | rbrace => simp [Tok.isQuoted] at hq
+  | unq s => simp [Tok.isQuoted] at hq
+
+theorem badEsc_not_quoted (b : Bool) (t : PTok) (hq : t.tok.isQuoted = false) : badEsc b t = false := by
+  obtain ⟨tok, off⟩ := t
+  cases tok <;> simp [badEsc, Tok.isQuoted] at hq ⊢
+
+/-- the token is the unquoted `+` -/
+theorem conv_plus (text : List Char) (file : List UInt8) (t : PTok) (hc : (conv text file t).code = Code.unquoted) :
+    (conv text file t).text = [43] ↔ t.tok = .unq ['+'] := by
+  obtain ⟨tok, off⟩ := t
+  cases tok with
+  | unq s =>
+    simp only [conv, tokText, Tok.unq.injEq]
+    constructor
+    · intro h
+      exact encodeChars_eq_single s '+' (by decide) h
+    · intro h; rw [h]; rfl
+  | semi => simp [conv, tokCode] at hc
+  | lbrace => simp [conv, tokCode] at hc
+  | rbrace => simp [conv, tokCode] at hc
+  | sq s => simp [conv, tokCode] at hc
+  | dq s => simp [conv, tokCode] at hc
+
+/-- the parser stands between two statements, before the tokens `ts`, and nothing has gone wrong -/
+structure At (text : List Char) (file : List UInt8) (p : P) (ts : List PTok) : Prop where
+  stack : p.tokens = []
+  toks : p.src.toks = ts
+  clean : p.src.errs = []
+  fault : p.fault = .none
+  text : p.src.text = text
+  file : p.src.file = file
+
+/-- after these tokens the statement cannot end: neither `;` nor `{` comes next -/
+def NoTerm : List PTok → Prop
+  | [] => True
+  | e :: _ => e.tok ≠ .semi ∧ e.tok ≠ .lbrace
+
+/-! ## `concatTail` case by case -/
+
+theorem concatTail_nil (text : List Char) (b : Bool) : concatTail text b [] = some ([], []) := by
+  simp [concatTail]
+
+theorem concatTail_single (text : List Char) (b : Bool) (t : PTok) : concatTail text b [t] = some ([], [t]) := by
+  simp [concatTail]
+
+theorem concatTail_not_plus (text : List Char) (b : Bool) (t : PTok) (ts : List PTok) (h : t.tok ≠ .unq ['+']) :
+    concatTail text b (t :: ts) = some ([], t :: ts) := by
+  cases ts with
+  | nil => exact concatTail_single text b t
+  | cons q rest => simp [concatTail, h]
+
+theorem concatTail_plus_other (text : List Char) (b : Bool) (t q : PTok) (ts : List PTok)
+    (h : q.tok.isQuoted = false) : concatTail text b (t :: q :: ts) = some ([], t :: q :: ts) := by
+  simp [concatTail, h]
+
+theorem concatTail_plus_quoted_some (text : List Char) (b : Bool) (t q : PTok) (ts : List PTok)
+    (ht : t.tok = .unq ['+']) (h : q.tok.isQuoted = true) (s s' : List Char) (r : List PTok)
+    (h1 : piece text b q = some s) (h2 : concatTail text b ts = some (s', r)) :
+    concatTail text b (t :: q :: ts) = some (s ++ s', r) := by
+  simp [concatTail, ht, h, h1, h2]
+
+theorem concatTail_plus_quoted_none (text : List Char) (b : Bool) (t q : PTok) (ts : List PTok)
+    (ht : t.tok = .unq ['+']) (h : q.tok.isQuoted = true)
+    (h1 : piece text b q = none ∨ concatTail text b ts = none) :
+    concatTail text b (t :: q :: ts) = none := by
+  rcases h1 with h1 | h1
+  · simp [concatTail, ht, h, h1]
+  · simp only [concatTail, ht, h, h1, decide_true, Bool.and_self, if_true]
+    split <;> simp_all
+
+/-! ## `parser.next` on the list -/
+
+/-- what `concatLoop` leaves untouched -/
+theorem concatLoop_frame (b : Bool) : ∀ (f : Nat) (T : Token) (p : P), p.src.toks.length + 1 ≤ f →
+    (concatLoop LS b f T p).1.code = T.code ∧ (concatLoop LS b f T p).1.file = T.file ∧
+    (concatLoop LS b f T p).1.line = T.line ∧ (concatLoop LS b f T p).1.col = T.col ∧
+    (concatLoop LS b f T p).2.fault = p.fault ∧ (concatLoop LS b f T p).2.depth = p.depth ∧
+    (concatLoop LS b f T p).2.src.text = p.src.text ∧ (concatLoop LS b f T p).2.src.file = p.src.file := by
+  intro f
+  induction f with
+  | zero => intro T p h; omega
+  | succ f ih =>
+    intro T p hf
+    unfold concatLoop
+    simp only
+    cases hts : p.src.toks with
+    | nil =>
+      obtain ⟨h1, h2, h3, h4, h5, h6, h7, _⟩ := pullTok_nil b p hts
+      rw [h1]
+      exact ⟨rfl, rfl, rfl, rfl, h4, h3, h6, h7⟩
+    | cons nt ts1 =>
+      obtain ⟨h1, h2, h3, h4, h5, h6, h7, _⟩ := pullTok_cons b p nt ts1 hts
+      rw [h1]
+      simp only
+      split
+      · split
+        · exact ⟨rfl, rfl, rfl, rfl, h4, h3, h6, h7⟩
+        · cases hts1 : (pullTok LS b p).2.src.toks with
+          | nil =>
+            obtain ⟨g1, g2, g3, g4, g5, g6, g7, _⟩ := pullTok_nil b _ hts1
+            rw [g1]
+            exact ⟨rfl, rfl, rfl, rfl, g4.trans h4, g3.trans h3, g6.trans h6, g7.trans h7⟩
+          | cons nnt ts2 =>
+            obtain ⟨g1, g2, g3, g4, g5, g6, g7, _⟩ := pullTok_cons b _ nnt ts2 hts1
+            rw [g1]
+            simp only
+            split
+            · have hlen : (pullTok LS b (pullTok LS b p).2).2.src.toks.length + 1 ≤ f := by
+                rw [g5]
+                have : ts1 = nnt :: ts2 := by rw [← h5, hts1]
+                rw [hts, this] at hf
+                simp only [List.length_cons] at hf
+                omega
+              obtain ⟨i1, i2, i3, i4, i5, i6, i7, i8⟩ := ih { T with text := T.text ++ (conv (pullTok LS b p).2.src.text
+                (pullTok LS b p).2.src.file nnt).text } _ hlen
+              exact ⟨i1, i2, i3, i4, i5.trans (g4.trans h4), i6.trans (g3.trans h3), i7.trans (g6.trans h6),
+                i8.trans (g7.trans h7)⟩
+            · exact ⟨rfl, rfl, rfl, rfl, g4.trans h4, g3.trans h3, g6.trans h6, g7.trans h7⟩
+      · exact ⟨rfl, rfl, rfl, rfl, h4, h3, h6, h7⟩
+
+/-- the concatenation loop against `concatTail` -/
+theorem concatLoop_spec (text : List Char) (file : List UInt8) (b : Bool) :
+    ∀ (f : Nat) (ts : List PTok) (T : Token) (p : P),
+    At text file p ts → ts.length + 1 ≤ f → (∀ t ∈ ts, okTok t) →
+    ((Bad (concatLoop LS b f T p).2 ∧
+        (concatTail text b ts = none ∨ ∃ v rest, concatTail text b ts = some (v, rest) ∧ NoTerm rest)) ∨
+     ((concatLoop LS b f T p).2.src.errs = [] ∧
+        ∃ v pushed, concatTail text b ts = some (v, pushed ++ (concatLoop LS b f T p).2.src.toks) ∧
+          (concatLoop LS b f T p).1.text = T.text ++ encodeChars v ∧
+          (concatLoop LS b f T p).2.tokens = pushed.map (conv text file) ∧
+          (pushed = [] → (concatLoop LS b f T p).2.src.toks = []) ∧
+          (concatLoop LS b f T p).2.src.tail = p.src.tail)) := by
+  intro f
+  induction f with
+  | zero => intro ts T p _ h; omega
+  | succ f ih =>
+    intro ts T p hat hf hadm
+    unfold concatLoop
+    simp only
+    cases ts with
+    | nil =>
+      obtain ⟨h1, h2, h3, h4, h5, h6, h7, h8, h9, _⟩ := pullTok_nil b p hat.toks
+      rw [h1]
+      simp only
+      cases htail : p.src.tail with
+      | none =>
+        right
+        obtain ⟨e1, e2⟩ := h8 htail
+        refine ⟨by rw [e1]; exact hat.clean, [], [], ?_, by simp [Goyang.Model.Utf8.encodeChars], ?_, fun _ => h5, e2⟩
+        · rw [h5]; exact concatTail_nil text b
+        · rw [h2, hat.stack]; rfl
+      | some e =>
+        left
+        exact ⟨h9 (by rw [htail]; simp), Or.inr ⟨[], [], concatTail_nil text b, trivial⟩⟩
+    | cons nt ts1 =>
+      obtain ⟨h1, h2, h3, h4, h5, h6, h7, h8, h9, h10, _⟩ := pullTok_cons b p nt ts1 hat.toks
+      rw [h1]
+      simp only
+      rw [hat.text, hat.file]
+      have hstack1 : (pullTok LS b p).2.tokens = [] := h2.trans hat.stack
+      by_cases hcode : (conv text file nt).code = Code.unquoted
+      · rw [if_pos hcode]
+        have hnq : nt.tok.isQuoted = false := by
+          obtain ⟨s, hs⟩ := (tokCode_unquoted nt.tok).1 hcode
+          rw [hs]; rfl
+        have hclean1 : (pullTok LS b p).2.src.errs = [] := (h9 (badEsc_not_quoted b nt hnq)).trans hat.clean
+        by_cases hplus : (conv text file nt).text = [43]
+        · rw [if_neg (by simpa using hplus)]
+          have hnt : nt.tok = .unq ['+'] := (conv_plus text file nt hcode).1 hplus
+          cases ts1 with
+          | nil =>
+            obtain ⟨g1, g2, g3, g4, g5, g6, g7, g8, g9, _⟩ := pullTok_nil b (pullTok LS b p).2 h5
+            rw [g1]
+            simp only
+            cases htail : p.src.tail with
+            | none =>
+              right
+              obtain ⟨e1, e2⟩ := g8 (h8.trans htail)
+              refine ⟨by rw [(push_fields _ _).1, e1]; exact hclean1, [], [nt], ?_,
+                by simp [Goyang.Model.Utf8.encodeChars], ?_, (fun h => by cases h), ?_⟩
+              · rw [(push_fields _ _).1, g5]; exact concatTail_single text b nt
+              · rw [(push_fields _ _).2.2.2, g2, hstack1]; rfl
+              · rw [(push_fields _ _).1, e2]
+            | some e =>
+              left
+              refine ⟨?_, Or.inr ⟨[], [nt], concatTail_single text b nt, ?_⟩⟩
+              · unfold Bad
+                rw [(push_fields _ _).1]
+                exact g9 (by rw [h8, htail]; simp)
+              · rw [NoTerm, hnt]; simp
+          | cons nnt ts2 =>
+            obtain ⟨g1, g2, g3, g4, g5, g6, g7, g8, g9, g10, _⟩ := pullTok_cons b (pullTok LS b p).2 nnt ts2 h5
+            rw [g1]
+            simp only
+            rw [h6, h7, hat.text, hat.file]
+            by_cases hq : (conv text file nnt).code = Code.string
+            · rw [if_pos hq]
+              have hquoted : nnt.tok.isQuoted = true := (tokCode_string nnt.tok).1 hq
+              have hoknnt : okTok nnt := hadm nnt (by simp)
+              obtain ⟨pb, pg⟩ := piece_spec text file b nnt hquoted hoknnt
+              by_cases hbad : badEsc b nnt = true
+              · left
+                refine ⟨concatLoop_bad b f _ _ (g10 hbad), Or.inl ?_⟩
+                exact concatTail_plus_quoted_none text b nt nnt ts2 hnt hquoted (Or.inl (pb hbad))
+              · have hbad' : badEsc b nnt = false := by simpa using hbad
+                obtain ⟨v1, hv1, hev1⟩ := pg hbad'
+                have hat2 : At text file (pullTok LS b (pullTok LS b p).2).2 ts2 :=
+                  ⟨g2.trans hstack1, g5, (g9 hbad').trans hclean1, g4.trans (h4.trans hat.fault),
+                   g6.trans (h6.trans hat.text), g7.trans (h7.trans hat.file)⟩
+                rcases ih ts2 { T with text := T.text ++ (conv text file nnt).text } _ hat2
+                    (by simp only [List.length_cons] at hf; omega)
+                    (fun t ht => hadm t (by simp [ht])) with ⟨hb, hsp⟩ | ⟨hc, v, pushed, hsp, htx, htk, hpe, htl⟩
+                · left
+                  refine ⟨hb, ?_⟩
+                  rcases hsp with hsp | ⟨v, rest, hsp, hnt'⟩
+                  · exact Or.inl (concatTail_plus_quoted_none text b nt nnt ts2 hnt hquoted (Or.inr hsp))
+                  · exact Or.inr ⟨v1 ++ v, rest,
+                      concatTail_plus_quoted_some text b nt nnt ts2 hnt hquoted v1 v rest hv1 hsp, hnt'⟩
+                · right
+                  refine ⟨hc, v1 ++ v, pushed,
+                    concatTail_plus_quoted_some text b nt nnt ts2 hnt hquoted v1 v _ hv1 hsp, ?_, htk, hpe, ?_⟩
+                  · rw [htx]; simp only; rw [encodeChars_append, ← hev1, List.append_assoc]
+                  · rw [htl, g8, h8]
+            · rw [if_neg hq]
+              have hnquoted : nnt.tok.isQuoted = false := by
+                cases hh : nnt.tok.isQuoted with
+                | false => rfl
+                | true => exact absurd ((tokCode_string nnt.tok).2 hh) hq
+              right
+              refine ⟨?_, [], [nt, nnt], ?_, by simp [Goyang.Model.Utf8.encodeChars], ?_, (fun h => by cases h), ?_⟩
+              · rw [(push_fields _ _).1, g9 (badEsc_not_quoted b nnt hnquoted)]; exact hclean1
+              · rw [(push_fields _ _).1, g5]
+                exact concatTail_plus_other text b nt nnt ts2 hnquoted
+              · rw [(push_fields _ _).2.2.2, g2, hstack1]; rfl
+              · rw [(push_fields _ _).1, g8, h8]
+        · rw [if_pos (by simpa using hplus)]
+          have hnt : nt.tok ≠ .unq ['+'] := fun h => hplus ((conv_plus text file nt hcode).2 h)
+          right
+          refine ⟨by rw [(push_fields _ _).1]; exact hclean1, [], [nt], ?_,
+            by simp [Goyang.Model.Utf8.encodeChars], ?_, (fun h => by cases h), ?_⟩
+          · rw [(push_fields _ _).1, h5]; exact concatTail_not_plus text b nt ts1 hnt
+          · rw [(push_fields _ _).2.2.2, hstack1]; rfl
+          · rw [(push_fields _ _).1, h8]
+      · rw [if_neg hcode]
+        have hnt : nt.tok ≠ .unq ['+'] := by
+          intro h; apply hcode; rw [conv_code, h]; rfl
+        by_cases hbad : badEsc b nt = true
+        · left
+          refine ⟨by unfold Bad; rw [(push_fields _ _).1]; exact h10 hbad,
+            Or.inr ⟨[], nt :: ts1, concatTail_not_plus text b nt ts1 hnt, ?_⟩⟩
+          have : nt.tok.isQuoted = true := by
+            cases hh : nt.tok.isQuoted with
+            | true => rfl
+            | false => rw [badEsc_not_quoted b nt hh] at hbad; cases hbad
+          cases hk : nt.tok <;> simp [hk, Tok.isQuoted] at this <;> simp [NoTerm, hk]
+        · have hbad' : badEsc b nt = false := by simpa using hbad
+          right
+          refine ⟨by rw [(push_fields _ _).1, h9 hbad']; exact hat.clean, [], [nt], ?_,
+            by simp [Goyang.Model.Utf8.encodeChars], ?_, (fun h => by cases h), ?_⟩
+          · rw [(push_fields _ _).1, h5]; exact concatTail_not_plus text b nt ts1 hnt
+          · rw [(push_fields _ _).2.2.2, hstack1]; rfl
+          · rw [(push_fields _ _).1, h8]
 
 end Goyang.Lemmas.ListSrc
